@@ -31,9 +31,17 @@ kinds = {
     "codecdiff": "differential encode/decode of every wire/disk format against the Lean codec model",
     "logdiff": "differential operation programs + crash images on the real segmented log against the Lean SegLog/SegDisk model",
     "repldiff": "differential step validation of replication.go's step functions (writeAppendEntriesReq, onAppendEntriesResp, sendInstallSnapReq, onLeaderUpdate) on a real replication object over an in-memory connection against the Lean model Raft.Repl, with request-content monitors",
-    "probelive": "the REAL control flow of replication.replicate() (probe loop, install fall-back, switch to pipelining) run in a goroutine over a scripted in-memory connection against a real follower node, compared exchange by exchange with the Lean model Raft.Repl.probe/replicate; bounded runs with a watchdog so that a spinning loop is reported",
+    "probelive": "the REAL control flow of replication.replicate() in its own goroutines over a scripted in-memory connection against a real follower node: probe loop, install fall-back and the pipelining phase (writer, reader, drains, every exit; episodes in child processes, race-detector variant); the probe phase is compared exchange by exchange with the Lean model Raft.Repl.probe/replicate, the pipeline is judged by monitors; bounded runs with watchdogs",
+    "astfacts": "TRANSLATOR of the regenerated tier: go/ast -> Lean definitions (channel skeletons of goroutines as control-flow graphs, channel census, safeTimer receive sites, timing expressions) written into lean/RaftGen/Gen on every run; the theorems of lean/RaftGen/Props are re-checked against them",
+    "livestress": "search aid after a regenerated theorem broke: replays the schedule / timing on the real code (leader.notifyFlr against receiving goroutines, replication.runLoop against an unreachable peer, replication.deadlineSize); never decides a property on the unchanged tree",
+    "scenario": "directed histories on the real code that proof attempts or misses produced (F19: delayed compaction under a live log view; pairing: a connection on which an RPC was given up is never used again); regression guards",
     "conndiff": "differential identity-handshake / lock scenarios over net.Pipe against the Lean connection automaton",
 }
+for n, ps in {"astfacts": ["C15", "C17"], "livestress": ["C15", "C17"]}.items():
+    engines.setdefault(n, set()).update(ps)
+for pid, p in props.items():
+    for sc in p.get("scenarios", []):
+        engines.setdefault("scenario", set()).add(pid)
 m = {
     "version": 1,
     "setup_cmd": "/verif/setup.sh",
@@ -42,7 +50,7 @@ m = {
     "checks": checks,
     "not_applicable": [{"property_id": pid, "reason": props.get(pid, {}).get("na_reason", "check under construction in this round: model slice and theorems not yet registered (see DESIGN.md section 7)")}
                        for pid in allids if pid not in props or props[pid].get("disabled")],
-    "notes": "All checks: Lean theorems audited per run (`#print axioms`), engines rebuilt from /repo's working tree with -tags verif. See DESIGN.md.",
+    "notes": "All checks: Lean theorems audited per run (`#print axioms`), engines rebuilt from /repo's working tree with -tags verif; for C15 and C17 part of the model (lean/RaftGen/Gen) is regenerated from the Go source on every run by go/astfacts and the theorems about it re-checked. Known findings: KNOWN_FINDINGS.json (F1-F21, all repaired by fix: commits). See DESIGN.md section 7.",
 }
 json.dump(m, open(os.path.join(ROOT, "MANIFEST.json"), "w"), indent=1)
 print("checks:", [c["property_id"] for c in checks])
